@@ -123,6 +123,8 @@ def programs(tier):
     maxd = 3
     for depth in range(0, maxd + 1):
         for chain in itertools.product(wk, repeat=depth):
+            if tier != "thorough" and depth == 3 and "begin-hnested" in chain:
+                continue          # nested handlers in chains of three wrappers: thorough tier only
             # innermost payloads
             payloads = []
             for fn, fs in FAIL_STMTS.items():
